@@ -318,6 +318,23 @@ pub fn run_big(c: &BigCase) -> BigResult {
     out
 }
 
+/// length of the longest run of consecutive Ephemeral jobs along a plain chain (0 for other shapes)
+pub fn longest_ephemeral_run(c: &BigCase) -> usize {
+    if c.shape != 0 {
+        return 0;
+    }
+    let (mut best, mut cur) = (0usize, 0usize);
+    for i in 0..c.n {
+        if kind_at(c, i, i == c.n - 1, i) == Kind::Ephemeral {
+            cur += 1;
+            best = best.max(cur);
+        } else {
+            cur = 0;
+        }
+    }
+    best
+}
+
 pub fn describe_big(c: &BigCase) -> String {
     format!(
         "{} n={} width={} kinds=pattern{}(period {}) cascade={} coarse_every={} stamps={} consumed-only={} output-names={}",
